@@ -131,7 +131,7 @@ CHECKS = {
             'Generated-input search over ro dependency masks, dro event partitions built by random adapt() sequences (with affine masks), '
             'and pairs of decisions with different partitions combined in one expression; all pairs of partitions of 3 (quick) / 4 '
             '(thorough) scenarios are enumerated. A rule that uses more or less dependence than declared changes the optimum and is '
-            'reported. Sampling plus small exhaustive enumeration, not proof.',
+            'reported. Enumerated every run: dro models whose second random array is declared after the first adapt() call, against the all-declared-first order. Sampling plus small exhaustive enumeration, not proof.',
             'References as in C02/C04; illegal declarations after a formulation may alternatively reproduce the from-scratch result.',
             'DESIGN.md section 4 / C13'),
     'C12': ('property-based testing against a-priori known answers: variables pinned by equalities, LDR coefficients pinned by robust '
